@@ -28,7 +28,7 @@ func VerifC04_v7_aliases() {
 	slug, rev := "OK", wireInt{kind: wNumber, v: 2, raw: "2"}
 	switch nondetChoice("focus", 10) {
 	case 7: // nested user type whose only validation is on primitive array elements
-		t := nondetStringUpTo("tag", 4)
+		t := nondetStringUpTo("tag", deep(4))
 		for j := 0; j < len(t); j++ {
 			verifAssume(t[j] < 0x80)
 		}
@@ -80,7 +80,7 @@ func VerifC04_v7_aliases() {
 	case 0: // array of alias
 		n := nondetChoice("codes-len", 3)
 		for i := 0; i < n; i++ {
-			c := nondetStringUpTo("code", 3)
+			c := nondetStringUpTo("code", deep(3))
 			verifMode("ascii-input")
 			for j := 0; j < len(c); j++ {
 				verifAssume(c[j] < 0x80)
@@ -94,7 +94,7 @@ func VerifC04_v7_aliases() {
 			body.Codes = nil
 		}
 	case 1: // map alias -> alias
-		k := nondetStringUpTo("key", 3)
+		k := nondetStringUpTo("key", deep(3))
 		for j := 0; j < len(k); j++ {
 			verifAssume(k[j] < 0x80)
 		}
